@@ -152,4 +152,126 @@ theorem stake_tx_delivers {w : World} {sender : String} {funds : List Coin} {mt 
           right
           simp [henv]
 
+
+theorem findCoin_singleton {c r : Coin} {D : String} (h : findCoin [c] D = some r) : r = c ∧ c.denom = D := by
+  unfold findCoin at h
+  simp only [List.find?_cons, List.find?_nil] at h
+  split at h
+  · rename_i hd
+    simp only [decide_eq_true_eq] at hd
+    simp only [Option.some.injEq] at h
+    exact ⟨h.symm, hd⟩
+  · cases h
+
+/-- **a committed ReceiveRewards on the chain model**: the reward `a` leaves the sender (the ibc-hooks
+account), `a − fee` travels on toward the staker in a pending packet, and `fee = floor(rate·a/100000)`
+lands with the treasury (when one is configured) or stays in the contract (when none is) — fee plus
+restaked amount is the reward exactly, on the ledgers. -/
+theorem rewards_tx_split {w : World} {sender : String} {coin : Coin} {f : Faults} {txi : Option Nat}
+    (hs : sender ≠ w.self) (hc : (runExec w sender [coin] .receiveRewards f txi).committed = true) :
+    coin.denom = w.c.config.proto.ibcDenom
+    ∧ w.c.config.feeCfg.fee * coin.amount / 100000 ≤ coin.amount
+    ∧ coin.amount ≤ w.bal sender w.c.config.proto.ibcDenom
+    ∧ ChainPkt.mk w.nextSeq w.c.config.proto.channel w.self w.c.config.native.staker
+        ⟨w.c.config.proto.ibcDenom, coin.amount - w.c.config.feeCfg.fee * coin.amount / 100000⟩ .pending
+        ∈ (runExec w sender [coin] .receiveRewards f txi).w.pkts
+    ∧ (∀ t, w.c.config.feeCfg.treasury = some t → t ≠ w.self → t ≠ sender →
+          (runExec w sender [coin] .receiveRewards f txi).w.bal t w.c.config.proto.ibcDenom
+            = w.bal t w.c.config.proto.ibcDenom + w.c.config.feeCfg.fee * coin.amount / 100000
+          ∧ (runExec w sender [coin] .receiveRewards f txi).w.bal w.self w.c.config.proto.ibcDenom
+            = w.bal w.self w.c.config.proto.ibcDenom
+          ∧ (runExec w sender [coin] .receiveRewards f txi).w.bal sender w.c.config.proto.ibcDenom
+            = w.bal sender w.c.config.proto.ibcDenom - coin.amount)
+    ∧ (w.c.config.feeCfg.treasury = none →
+          (runExec w sender [coin] .receiveRewards f txi).w.bal w.self w.c.config.proto.ibcDenom
+            = w.bal w.self w.c.config.proto.ibcDenom + w.c.config.feeCfg.fee * coin.amount / 100000
+          ∧ (runExec w sender [coin] .receiveRewards f txi).w.bal sender w.c.config.proto.ibcDenom
+            = w.bal sender w.c.config.proto.ibcDenom - coin.amount) := by
+  simp only [runExec] at hc ⊢
+  cases hcore : runExecCore w sender [coin] .receiveRewards f txi with
+  | mk o calls =>
+    cases o with
+    | none => simp [hcore] at hc
+    | some w2 =>
+      simp only [hcore]
+      obtain ⟨bal1, c', msgs, d, hbal, hx, hd, hw2⟩ := runExecCore_some hcore
+      subst hw2
+      simp only [List.isEmpty_cons, Bool.false_eq_true, ↓reduceIte] at hbal
+      obtain ⟨b1, b2, b3, b4⟩ := bankMove_ok hs hbal w.c.config.proto.ibcDenom
+      simp only [execute] at hx
+      obtain ⟨reward, fee', id, orc, _, _, _, hfc, hfee, hle, _, horc, hs', hout⟩ := receiveRewards_eff hx
+      obtain ⟨hrc, hden⟩ := findCoin_singleton hfc
+      subst hrc
+      subst hfee
+      have hcs : coinSum w.c.config.proto.ibcDenom [reward] = reward.amount := by simp [coinSum, hden]
+      rw [hcs] at b1 b2 b3
+      subst hout
+      obtain ⟨d2, h12, h3⟩ := dispatchAll_append_ok hd
+      obtain ⟨d1, h1, h2⟩ := dispatchAll_append_ok h12
+      have := dispatchAll_oracle horc h1; subst this
+      obtain ⟨d2', ht, hnil⟩ := dispatchAll_cons_ok h2
+      have := dispatchAll_nil_ok hnil; subst this
+      obtain ⟨_, _, hle2, wt, _, hw3⟩ := dispatch_transferSub_ok ht
+      have henv : (w.env txi).contract = w.self := rfl
+      have hns : ¬ (sender = w.self) := hs
+      refine ⟨hden, hle, b2, ?_, ?_, ?_⟩
+      · -- the packet toward the staker survives whatever follows
+        cases htre : w.c.config.feeCfg.treasury with
+        | none =>
+          simp only [treasuryMsgs, htre] at h3
+          have := dispatchAll_nil_ok h3; subst this
+          rw [hw3]; simp [henv]
+        | some t =>
+          simp only [treasuryMsgs, htre] at h3
+          obtain ⟨d4, hb, hnil4⟩ := dispatchAll_cons_ok h3
+          have := dispatchAll_nil_ok hnil4; subst this
+          obtain ⟨b, hbm, hd4⟩ := dispatch_bankSend_ok hb
+          subst hd4
+          rw [hw3]; simp [henv]
+      · intro t htre hts htn
+        simp only [treasuryMsgs, htre] at h3
+        obtain ⟨d4, hb, hnil4⟩ := dispatchAll_cons_ok h3
+        have := dispatchAll_nil_ok hnil4; subst this
+        obtain ⟨b, hbm, hd4⟩ := dispatch_bankSend_ok hb
+        subst hd4
+        rw [hw3] at hbm
+        simp only at hbm
+        obtain ⟨g1, g2, g3, g4⟩ := bankMove_ok (fun e => hts e.symm) hbm w.c.config.proto.ibcDenom
+        simp only [coinSum, ↓reduceIte, Nat.add_zero, Bal.sub_apply, and_self] at g1 g2 g3 g4
+        have hts' : ¬ (t = w.self) := hts
+        refine ⟨?_, ?_, ?_⟩
+        · simp only; rw [g1]; simp only [hts', false_and, ↓reduceIte]
+          rw [b4 t htn hts]
+        · simp only; rw [g3, b1]; omega
+        · simp only; rw [g4 sender hs (fun e => htn e.symm)]; simp only [hns, false_and, ↓reduceIte]; exact b3
+      · intro htre
+        simp only [treasuryMsgs, htre] at h3
+        have := dispatchAll_nil_ok h3; subst this
+        rw [hw3]
+        simp only [Bal.sub_apply, and_self, ↓reduceIte, hns, false_and]
+        refine ⟨?_, b3⟩
+        rw [b1]; omega
+
+
+/-- anatomy of a committed ibc-hooks delivery: the coin is credited to the derived hook account, which
+then sends the message with that coin attached -/
+theorem hook_committed {w : World} {channel ns : String} {coin : Coin} {msg : ExecMsg} {f : Faults}
+    (hc : (step w (.hook channel ns coin msg f)).committed = true) :
+    ∃ acct, deriveIntermediateSender channel ns w.chainPrefix = some acct ∧ coin.amount ≠ 0
+      ∧ (runExec { w with bal := w.bal.add acct coin.denom coin.amount } acct [coin] msg f).committed = true
+      ∧ (step w (.hook channel ns coin msg f)).w
+          = (runExec { w with bal := w.bal.add acct coin.denom coin.amount } acct [coin] msg f).w := by
+  simp only [step] at hc ⊢
+  split at hc
+  · simp at hc
+  · rename_i acct hacct
+    split at hc
+    · simp at hc
+    · rename_i hamt
+      split at hc
+      · rename_i hcm
+        refine ⟨acct, hacct, hamt, hcm, ?_⟩
+        simp only [hamt, ↓reduceIte, hcm]
+      · simp at hc
+
 end MW.Chain
